@@ -62,6 +62,9 @@ type world struct {
 	// compare the OPEN result itself, and whole replies for all other
 	// operations).
 	strictOpenReplay bool
+	// uncached41: sessions created from now on send every SEQUENCE with
+	// sa_cachethis=false.
+	uncached41 bool
 	// lastNames is the identifier renaming of the last inspection.
 	names40, names41 map[string]string
 }
